@@ -77,7 +77,9 @@ class InProcess:
 class MultiProcess:
     """several `python -m radicale` processes on one storage folder"""
 
-    def __init__(self, conf, nproc, delay_us):
+    def __init__(self, conf, nproc, delay_us, separate_cache=False):
+        """separate_cache: every instance has its own node-local cache folder (the multi-instance set-up of the documentation:
+        one shared `filesystem_folder`, `filesystem_cache_folder` per node, caches in sub-folders)"""
         self.folder = tempfile.mkdtemp(prefix="rverif-mp-")
         self.rights = permissive_rights()["file"]
         self.procs = []
@@ -93,7 +95,12 @@ class MultiProcess:
             cfg = os.path.join(self.folder, "config%d.ini" % i)
             with open(cfg, "w") as f:
                 f.write("[server]\nhosts = 127.0.0.1:%d\n[auth]\ntype = none\n[rights]\ntype = from_file\nfile = %s\n"
-                        "[storage]\nfilesystem_folder = %s\n[logging]\nlevel = error\n" % (port, self.rights, os.path.join(self.folder, "data")))
+                        "[storage]\nfilesystem_folder = %s\n%s[logging]\nlevel = error\n" % (
+                            port, self.rights, os.path.join(self.folder, "data"),
+                            ("filesystem_cache_folder = %s\nuse_cache_subfolder_for_item = True\nuse_cache_subfolder_for_history = True\n"
+                             "use_cache_subfolder_for_synctoken = True\n" % os.path.join(self.folder, "cache%d" % i)) if separate_cache else ""))
+            if separate_cache:
+                os.makedirs(os.path.join(self.folder, "cache%d" % i), exist_ok=True)
             self.procs.append(subprocess.Popen([sys.executable, "-m", "radicale", "--config", cfg], env=env,
                                                stdout=subprocess.DEVNULL, stderr=subprocess.DEVNULL))
             self.ports.append(port)
@@ -279,7 +286,7 @@ def final_state(transport, sim, etag_cid):
 def run_history(ctx, rng, hid, transport_kind, nclients, nops, delay_us):
     conf = {"auth": {"type": "none"}, "rights": permissive_rights()}
     sim = davsim.Sim.__new__(davsim.Sim)          # only the request translation is used
-    transport = InProcess(conf) if transport_kind == "threads" else MultiProcess(conf, rng.choice([2, 3]), delay_us)
+    transport = InProcess(conf) if transport_kind == "threads" else MultiProcess(conf, rng.choice([2, 3]), delay_us, separate_cache=rng.random() < 0.4)
     etag_cid = {}
     try:
         # sequential prefix, mirrored in the model
@@ -662,7 +669,7 @@ def run_crossprocess_sequence(ctx, rng, hid):
     every answer must be the sequential model's.  No schedule is involved — this is what catches state a process keeps across
     requests (property / listing caches) that another process's write does not invalidate."""
     sim = davsim.Sim.__new__(davsim.Sim)
-    transport = MultiProcess({}, rng.choice([2, 3]), 0)
+    transport = MultiProcess({}, rng.choice([2, 3]), 0, separate_cache=rng.random() < 0.5)
     etag_cid = {}
     try:
         base = ctx.driver.ask1({"m": "dav", "op": "new"})["sid"]
